@@ -1256,6 +1256,8 @@ class Engine:
                         # an overlay instruments nothing itself: it hears from the functions that are
                         # tooled, or that an active probe happens to have instrumented
                         exp = [(i, d) for i, d in exp if self.overlay_reaches(rec, self.sim.tr.events[i]["fn"])]
+                        if not all(self.overlay_reaches(rec, lv["fn"]) for sl in rec.spec["sels"] for lv in sl["levels"]):
+                            exp = []  # (a function on its path is not instrumented at all: never matched)
                     if self.sc.get("relax_inflight"):
                         if not uidx:
                             uidx, _ = self.inflight_unspecified(rec, ob["lo"], ob["hi"])
